@@ -16,7 +16,7 @@ hinted record reads back the same -/
 structure Rebuilt (s s' : State) : Prop where
   kv : s'.kv = normKV s.kv
   ids : ∀ id, id ∈ s'.committed ↔ id ∈ s.committed
-  fetch : ∀ i : Idx, vis (fetch s' (normIdx i)) = vis (fetch s i)
+  fetch : ∀ b m p, bucketIdx s b = some m → p ∈ m → vis (fetch s' (normIdx p.2)) = vis (fetch s p.2)
 
 theorem dead_committedRec (r : Rec) (now : Nat) : dead (committedRec r) now = dead r now := rfl
 
@@ -24,7 +24,7 @@ theorem dead_committedRec (r : Rec) (now : Nat) : dead (committedRec r) now = de
 theorem Rebuilt.of_files {s s' : State} (kv : s'.kv = normKV s.kv) (files : s'.files = s.files) (opt : s'.opt = s.opt)
     (ids : ∀ id, id ∈ s'.committed ↔ id ∈ s.committed) : Rebuilt s s' := by
   refine ⟨kv, ids, ?_⟩
-  intro i
+  intro b m p _ _
   unfold DB.fetch
   rw [opt, files]
   split <;> rfl
@@ -33,12 +33,20 @@ theorem Rebuilt.of_files {s s' : State} (kv : s'.kv = normKV s.kv) (files : s'.f
 theorem Rebuilt.of_mode0 {s s' : State} (kv : s'.kv = normKV s.kv) (m : s.opt.mode = 0) (m' : s'.opt.mode = 0)
     (ids : ∀ id, id ∈ s'.committed ↔ id ∈ s.committed) : Rebuilt s s' := by
   refine ⟨kv, ids, ?_⟩
-  intro i
+  intro b mm p _ _
   unfold DB.fetch
   simp only [m, m', beq_self_eq_true, if_true]
   rfl
 
-theorem fetch_rebuilt {s s' : State} (h : Rebuilt s s') (i : Idx) : vis (fetch s' (normIdx i)) = vis (fetch s i) := h.fetch i
+theorem aget_mem {α} (m : Assoc α) (k : Bytes) (v : α) (h : aget? m k = some v) : (k, v) ∈ m := by
+  induction m with
+  | nil => simp [aget?] at h
+  | cons q rest ih =>
+    obtain ⟨k', v'⟩ := q
+    simp only [aget?] at h
+    split at h
+    · rename_i hk; cases h; subst hk; simp
+    · exact List.mem_cons_of_mem _ (ih h)
 
 theorem contains_rebuilt {s s' : State} (h : Rebuilt s s') (id : Nat) : s'.committed.contains id = s.committed.contains id := by
   have := h.ids id
@@ -70,9 +78,10 @@ theorem get_rebuilt {s s' : State} (h : Rebuilt s s') (b k : Bytes) (now : Nat) 
       · rfl
       · split
         · rfl
-        · exact fetch_rebuilt h i
+        · exact h.fetch b m (k, i) hb (aget_mem m k i hk)
 
-theorem wrapper_rebuilt {s s' : State} (h : Rebuilt s s') (recs : List Idx) (lim : Int) (now : Nat)
+theorem wrapper_rebuilt {s s' : State} (recs : List Idx) (hf : ∀ i ∈ recs, vis (fetch s' (normIdx i)) = vis (fetch s i))
+    (lim : Int) (now : Nat)
     (acc acc' : List (Option Rec)) (hacc : acc'.map (Option.map committedRec) = acc.map (Option.map committedRec)) :
     visL (wrapper s' (recs.map normIdx) lim now acc') = visL (wrapper s recs lim now acc) := by
   induction recs generalizing acc acc' with
@@ -83,20 +92,21 @@ theorem wrapper_rebuilt {s s' : State} (h : Rebuilt s s') (recs : List Idx) (lim
     simp only [List.map_cons, wrapper]
     have hd : dead (normIdx i).r now = dead i.r now := rfl
     rw [hd, hlen]
+    have hrest : ∀ j ∈ rest, vis (fetch s' (normIdx j)) = vis (fetch s j) := fun j hj => hf j (by simp [hj])
     split
-    · exact ih acc acc' hacc
+    · exact ih hrest acc acc' hacc
     · split
-      · have hf := fetch_rebuilt h i
+      · have hf := hf i (by simp)
         unfold vis at hf
         cases hf' : fetch s' (normIdx i) <;> cases hf0 : fetch s i <;> rw [hf', hf0] at hf <;>
           simp only [Outcome.map] at hf <;> try (cases hf)
         · rename_i e' e
           simp only
-          apply ih
+          apply ih hrest
           simp only [List.map_append, List.map_cons, List.map_nil, hacc]
           injection hf with hf
           rw [hf]
-      · exact ih acc acc' hacc
+      · exact ih hrest acc acc' hacc
 
 theorem nonEmptyOrErr_visL (o o' : Outcome (List (Option Rec))) (h : visL o' = visL o) :
     visL (nonEmptyOrErr o') = visL (nonEmptyOrErr o) := by
@@ -127,7 +137,10 @@ theorem getAll_rebuilt {s s' : State} (h : Rebuilt s s') (b : Bytes) (now : Nat)
     · rfl
     · apply nonEmptyOrErr_visL
       rw [normBucket_vals]
-      exact wrapper_rebuilt h _ _ _ [] [] rfl
+      refine wrapper_rebuilt (m.map (·.2)) ?_ _ _ [] [] rfl
+      intro i hi
+      obtain ⟨p, hp, rfl⟩ := List.mem_map.mp hi
+      exact h.fetch b m p hb hp
 
 theorem normBucket_filter (m : Assoc Idx) (p : Bytes → Bool) :
     (normBucket m).filter (fun x => p x.1) = normBucket (m.filter fun x => p x.1) := by
@@ -155,7 +168,10 @@ theorem rangeScan_rebuilt {s s' : State} (h : Rebuilt s s') (b st en : Bytes) (n
       · rfl
       · apply nonEmptyOrErr_visL
         rw [normBucket_vals]
-        exact wrapper_rebuilt h _ _ _ [] [] rfl
+        refine wrapper_rebuilt _ ?_ _ _ [] [] rfl
+        intro i hi
+        obtain ⟨p, hp, rfl⟩ := List.mem_map.mp hi
+        exact h.fetch b m p hb (List.mem_filter.mp hp).1
 
 theorem prefixGo_norm (off lim : Int) (mt : Bytes → Bool) (l : List (Bytes × Idx)) (c : Int) (acc : List Idx) :
     prefixWalk.go off lim mt (normBucket l) c (acc.map normIdx) =
@@ -186,6 +202,43 @@ theorem prefixWalk_norm (m : Assoc Idx) (pre : Bytes) (off lim : Int) (mt : Byte
   rw [h1, h2]
   exact prefixGo_norm off lim mt _ 0 []
 
+theorem prefixGo_subset (off lim : Int) (mt : Bytes → Bool) (l : List (Bytes × Idx)) (c : Int) (acc : List Idx) :
+    ∀ i ∈ (prefixWalk.go off lim mt l c acc).1, i ∈ acc ∨ ∃ p ∈ l, p.2 = i := by
+  induction l generalizing c acc with
+  | nil => intro i hi; simp [prefixWalk.go] at hi; exact Or.inl hi
+  | cons p rest ih =>
+    intro i hi
+    unfold prefixWalk.go at hi
+    split at hi
+    · rcases ih _ _ i hi with h | ⟨q, hq, hqi⟩
+      · exact Or.inl h
+      · exact Or.inr ⟨q, by simp [hq], hqi⟩
+    · split at hi
+      · rcases ih _ _ i hi with h | ⟨q, hq, hqi⟩
+        · exact Or.inl h
+        · exact Or.inr ⟨q, by simp [hq], hqi⟩
+      · simp only [] at hi
+        split at hi
+        · simp only [List.mem_append, List.mem_singleton] at hi
+          rcases hi with h | h
+          · exact Or.inl h
+          · exact Or.inr ⟨p, by simp, h.symm⟩
+        · rcases ih _ _ i hi with h | ⟨q, hq, hqi⟩
+          · simp only [List.mem_append, List.mem_singleton] at h
+            rcases h with h | h
+            · exact Or.inl h
+            · exact Or.inr ⟨p, by simp, h.symm⟩
+          · exact Or.inr ⟨q, by simp [hq], hqi⟩
+
+theorem prefixWalk_subset (m : Assoc Idx) (pre : Bytes) (off lim : Int) (mt : Bytes → Bool) :
+    ∀ i ∈ (prefixWalk m pre off lim mt).1, ∃ p ∈ m, p.2 = i := by
+  intro i hi
+  unfold prefixWalk at hi
+  simp only [] at hi
+  rcases prefixGo_subset off lim mt _ 0 [] i hi with h | ⟨p, hp, hpi⟩
+  · cases h
+  · exact ⟨p, (List.dropWhile_sublist _).subset ((List.takeWhile_sublist _).subset hp), hpi⟩
+
 /-- **PrefixScan / PrefixSearchScan after a reopen** -/
 theorem prefixScan_rebuilt {s s' : State} (h : Rebuilt s s') (b pre : Bytes) (off lim : Int) (now : Nat) (mt : Bytes → Bool) :
     visL (prefixScan s' b pre off lim now mt) = visL (prefixScan s b pre off lim now mt) := by
@@ -203,6 +256,10 @@ theorem prefixScan_rebuilt {s s' : State} (h : Rebuilt s s') (b pre : Bytes) (of
     split
     · rfl
     · apply nonEmptyOrErr_visL
-      exact wrapper_rebuilt h _ _ _ [] [] rfl
+      refine wrapper_rebuilt _ ?_ _ _ [] [] rfl
+      intro i hi
+      obtain ⟨p, hp, hpi⟩ := prefixWalk_subset m pre off lim mt i hi
+      rw [← hpi]
+      exact h.fetch b m p hb hp
 
 end NutsProofs.Reopen
